@@ -1378,6 +1378,20 @@ class TestCaseInfo:
     error: bool = None
 
 
+# Characters that XML 1.0 cannot represent at all, not even as a character
+# reference: C0 controls except tab/newline/return, surrogates, U+FFFE/U+FFFF.
+_ILLEGAL_XML_CHARS = re.compile(
+    '[^\t\n\r\x20-\ud7ff\ue000-\ufffd\U00010000-\U0010ffff]')
+
+
+def _xml_safe(text):
+    """Make text representable in XML 1.0 (escape the impossible)."""
+    return _ILLEGAL_XML_CHARS.sub(
+        lambda m: '\\x%02x' % ord(m.group())
+        if ord(m.group()) < 256 else '\\u%04x' % ord(m.group()),
+        text)
+
+
 def get_test_class_name(test):
     """Compute the test class name from the test object."""
     return f'{test.__module__}.{test.__class__.__name__}'
@@ -1569,8 +1583,9 @@ class XMLOutputFormattingWrapper:
                 testCaseNode = ElementTree.Element('testcase')
                 testSuiteNode.append(testCaseNode)
 
-                testCaseNode.set('classname', testCase.testClassName)
-                testCaseNode.set('name', testCase.testName)
+                testCaseNode.set('classname',
+                                 _xml_safe(testCase.testClassName))
+                testCaseNode.set('name', _xml_safe(testCase.testName))
                 testCaseNode.set('time', str(testCase.time))
 
                 if testCase.error:
@@ -1579,14 +1594,14 @@ class XMLOutputFormattingWrapper:
 
                     try:
                         excType, excInstance, tb = testCase.error
-                        errorMessage = str(excInstance)
+                        errorMessage = _xml_safe(str(excInstance))
                         stackTrace = ''.join(traceback.format_tb(tb))
                     finally:  # Avoids a memory leak
                         del tb
 
                     errorNode.set('message', errorMessage.split('\n')[0])
                     errorNode.set('type', str(excType))
-                    text = (errorMessage + '\n\n' + stackTrace)
+                    text = (errorMessage + '\n\n' + _xml_safe(stackTrace))
                     errorNode.text = text
 
                 if testCase.failure:
@@ -1596,7 +1611,7 @@ class XMLOutputFormattingWrapper:
 
                     try:
                         excType, excInstance, tb = testCase.failure
-                        errorMessage = str(excInstance)
+                        errorMessage = _xml_safe(str(excInstance))
                         stackTrace = ''.join(traceback.format_tb(tb))
                     except UnicodeEncodeError:
                         errorMessage = 'Could not extract error str ' \
@@ -1607,7 +1622,7 @@ class XMLOutputFormattingWrapper:
 
                     failureNode.set('message', errorMessage.split('\n')[0])
                     failureNode.set('type', str(excType))
-                    text = f'{errorMessage}\n\n{stackTrace}'
+                    text = f'{errorMessage}\n\n{_xml_safe(stackTrace)}'
                     failureNode.text = text
 
             # We don't have a good way to capture these yet, so they are empty:
